@@ -330,11 +330,24 @@ def extract(src, problems):
         fn = tr.find('split_path_info')
         vals['spi_strip'] = _str1(_one([c.args[0].value for c in _calls(fn, 'strip')], 'strip'), 'strip')
         vals['spi_split'] = _str1(_one([c.args[0].value for c in _calls(fn, 'split')], 'split'), 'split')
-        cmps = [n.comparators[0].value for n in ast.walk(fn) if isinstance(n, ast.Compare)
-                and len(n.ops) == 1 and isinstance(n.ops[0], ast.Eq) and isinstance(n.comparators[0], ast.Constant)]
+        # the two `segment == <const>` tests: the one whose branch deletes the last clean element is the "pop" segment,
+        # the other the "skip" segment (independent of the order in which the tests are written)
+        def eq_consts(node):
+            return [n.comparators[0].value for n in ast.walk(node) if isinstance(n, ast.Compare)
+                    and len(n.ops) == 1 and isinstance(n.ops[0], ast.Eq) and isinstance(n.comparators[0], ast.Constant)]
+        cmps = eq_consts(fn)
         if len(cmps) != 2:
             raise ValueError('expected two == comparisons, found %r' % cmps)
-        vals['spi_skip'], vals['spi_pop'] = cmps
+        pops = []
+        for n in ast.walk(fn):
+            if isinstance(n, ast.If) and any(isinstance(d, ast.Delete) for b in n.body for d in ast.walk(b)):
+                pops += eq_consts(n.test)
+        if len(pops) != 1:
+            raise ValueError('expected one == test guarding a del, found %r' % pops)
+        skips = [c for c in cmps if c != pops[0]]
+        if len(skips) != 1:
+            raise ValueError('skip segment not identified: %r' % cmps)
+        vals['spi_skip'], vals['spi_pop'] = skips[0], pops[0]
         call = tr.find('ResourceTreeTraverser.__call__')
         keys = [c.args[0].value for c in _calls(call, 'get')
                 if isinstance(c.func.value, ast.Name) and c.func.value.id == 'matchdict'
